@@ -167,6 +167,49 @@ def distSub (c : Costs) (s t : List α) : Nat :=
   let (src, tgt) := orient s t
   subLoop c tgt (initRow c tgt) (tgt.length * c.ins) src
 
+/-! ### Substring alignment (`levenshtein_alignment_substring`)
+
+Rows as in the substring distance (`rowStepSub`: column 0 stays 0 with backtrack value 1, so walking up
+column 0 consumes source symbols for free).  The extra last column records, per row `i ≥ 1`, how the best
+end so far relates to ending at row `i`:  `0` (equal: `dist[-1] == dist[-2]`), `-1` (this row is better:
+taken), `1` (an earlier row stays better).  Row 0 is `-1`.  `suffix_beginning` = 1 + the last row whose
+last-column value is < 1 (if some row has value 1), else the number of rows.  The alignment is the free
+suffix `source[suffix_beginning-1:]` paired with the empty symbol, preceded by the ordinary backtrack from
+`(suffix_beginning-1, |target|)` in the truncated matrix.  Sequences are swapped first if the target is
+longer, and the pairs are swapped back at the end. -/
+
+/-- all rows of the substring DP with, per row, the last-column tag and the running best -/
+def subRows (c : Costs) (t : List α) : List Cell → Nat → List α → List (List Cell × Tag)
+  | _, _, [] => []
+  | row, best, s :: ss =>
+    let row' := rowStepSub c t row s
+    let v := lastVal row'
+    let tg : Tag := if best = v then Tag.sub else if v < best then Tag.ins else Tag.del
+    (row', tg) :: subRows c t row' (min best v) ss
+
+/-- `suffix_beginning` from the last-column tags of rows `0..n` (row 0 has tag `ins` = -1) -/
+def suffixBeginning (lastTags : List Tag) : Nat :=
+  if lastTags.any (· == Tag.del) then
+    -- np.where(backtrack[:, -1] < 1)[0][-1] + 1
+    match ((List.range lastTags.length).filter fun i => lastTags.getD i Tag.ins != Tag.del).getLast? with
+    | some i => i + 1
+    | none => lastTags.length
+  else lastTags.length
+
+/-- `levenshtein_alignment_substring` (pairs are (source symbol, target symbol) of the ORIGINAL call) -/
+def alignmentSub (c : Costs) (s t : List α) : Option (List (Option α × Option α)) :=
+  let swapped := decide (t.length > s.length)
+  let (src, tgt) := orient s t
+  let r0 := initRow c tgt
+  let rs := subRows c tgt r0 (tgt.length * c.ins) src
+  let lastTags := Tag.ins :: rs.map (·.2)
+  let sb := suffixBeginning lastTags
+  let rows := (r0 :: rs.map (·.1)).take sb
+  let tail : List (Option α × Option α) := (src.drop (sb - 1)).map fun x => (some x, none)
+  match back rows src tgt (sb - 1 + tgt.length) (sb - 1) tgt.length tail with
+  | none => none
+  | some al => some (if swapped then al.map fun p => (p.2, p.1) else al)
+
 /-! ### `ErrorsSummary` (numeric fields) -/
 
 structure Summary where
